@@ -139,6 +139,12 @@ fn show_list(v: &[R]) -> Vec<String> {
 pub fn case(r: &R, script: &[u64]) -> Result<(), String> {
     let r2 = r.clone();
     let script = script.to_vec();
+    if r.has_any_placeholder_component_in_image() {
+        let r3 = r.clone();
+        if quiet_catch(AssertUnwindSafe(move || r3.build())).is_err() {
+            return Ok(()); // a stricter constructor refused KF-1's shape: not constructible, nothing to check
+        }
+    }
     match quiet_catch(AssertUnwindSafe(move || {
         let (t, _) = narsese::verif_hooks::with_seed_script(&script, || r2.build());
         check_term(&r2, &t)
